@@ -65,12 +65,16 @@ UNIT_TD = datetime.timedelta(days=1)
 # ID / name style of the spec being built (set by build(); reset by the runner before every case).
 # "flat": objects of different kinds share ID strings ("0", "1", ...; lookups are per kind, so this is legal);
 # names: optional list of task names (duplicates allowed; skills are per name).
-_STYLE = {"ids": None, "names": None}
+# default_names: workers, teams, workplaces and components all carry the library's default name of their kind
+# ("New Worker", ...), as objects created without a name do; facility names stay unique (operators' facility skills
+# are keyed by facility name).
+_STYLE = {"ids": None, "names": None, "default_names": False}
 
 
 def set_style(spec=None):
     _STYLE["ids"] = spec.get("ids") if spec else None
     _STYLE["names"] = spec.get("names") if spec else None
+    _STYLE["default_names"] = bool(spec.get("default_names")) if spec else False
 
 
 def _id(prefix, i):
@@ -91,7 +95,19 @@ def wid(i):
 
 
 def wname(i):
-    return "W" + str(i)
+    return "New Worker" if _STYLE["default_names"] else "W" + str(i)
+
+
+def cname(i):
+    return "New Component" if _STYLE["default_names"] else "C" + str(i)
+
+
+def tmname(i):
+    return "New Team" if _STYLE["default_names"] else "TM" + str(i)
+
+
+def wpname(i):
+    return "New Workplace" if _STYLE["default_names"] else "WP" + str(i)
 
 
 def fid(i):
@@ -215,7 +231,7 @@ def build(spec, task_hashes=None, comp_hashes=None, junk=0):
         h.tasks.append(task)
     cspecs = spec.get("comps", [])
     for i, c in enumerate(cspecs):
-        kw = dict(name="C" + str(i), ID=cid(i), space_size=c.get("space", 1.0))
+        kw = dict(name=cname(i), ID=cid(i), space_size=c.get("space", 1.0))
         if comp_hashes is not None:
             comp = HComponent(**kw)
             comp._vh = int(comp_hashes[i])
@@ -223,7 +239,7 @@ def build(spec, task_hashes=None, comp_hashes=None, junk=0):
             comp = BaseComponent(**kw)
         h.comps.append(comp)
     for i, tm in enumerate(spec.get("teams", [])):
-        h.teams.append(BaseTeam(name="TM" + str(i), ID=tmid(i)))
+        h.teams.append(BaseTeam(name=tmname(i), ID=tmid(i)))
     for i, w in enumerate(spec.get("workers", [])):
         worker = BaseWorker(
             name=wname(i),
@@ -243,7 +259,7 @@ def build(spec, task_hashes=None, comp_hashes=None, junk=0):
 
     for i, wp in enumerate(spec.get("wps", [])):
         workplace = BaseWorkplace(
-            name="WP" + str(i), ID=wpid(i), max_space_size=wp.get("cap", 1.0)
+            name=wpname(i), ID=wpid(i), max_space_size=wp.get("cap", 1.0)
         )
         h.wps.append(workplace)
     for i, f in enumerate(spec.get("facs", [])):
